@@ -362,17 +362,22 @@ def r7_str_match(text, log, base_line, item_name):
         if not arms or arms[-1][0] != '_':
             raise UnsupportedConstruct('string match without a final wildcard arm')
         scrut = m.group(1).strip()
-        scrut2 = re.sub(r'(\w+)\s*\.\s*to_lowercase\s*\(\s*\)\s*\.\s*as_str\s*\(\s*\)', r'str_lower(\1)', scrut)
-        chain = '{ let __m = %s; ' % scrut2
+        # the scrutinee as an owned-or-borrowed string value: `.as_str()` dropped (str_is takes anything with a string view)
+        scrut2 = re.sub(r'\s*\.\s*as_str\s*\(\s*\)\s*$', '', scrut)
+        chain = '{ let __m = &%s; ' % scrut2
         for i, (pat, expr) in enumerate(arms[:-1]):
-            cond = ' || '.join('str_is(&__m, %s)' % lit.strip() for lit in pat.split('|'))
+            cond = ' || '.join('str_is(__m, %s)' % lit.strip() for lit in pat.split('|'))
             chain += ('if ' if i == 0 else ' else if ') + cond + ' { ' + expr + ' }'
         chain += ' else { ' + arms[-1][1] + ' } }'
         log.append(dict(rule='R7.str_match', line=base_line + text.count('\n', 0, pos + m.start()), old=_short(text[pos + m.start():cb + 1]), new=_short(chain), item=item_name))
         out += text[pos:pos + m.start()] + chain
         pos = cb + 1
         n += 1
-    return out + text[pos:]
+    res = out + text[pos:]
+    res2 = re.sub(r'(\w+)\s*\.\s*to_lowercase\s*\(\s*\)', r'str_lower(\1)', res)
+    if res2 != res:
+        log.append(dict(rule='R7.to_lowercase', line=base_line, old='x.to_lowercase()', new='str_lower(x)', item=item_name))
+    return res2
 
 
 def _receiver_start(text, dot):
